@@ -436,10 +436,10 @@ SStepRet ==
            stack' = SetTop([Top EXCEPT !.rs = IF shouldSkip[el] THEN FALSE ELSE Top.rs, !.pc = "steps", !.i = k + 1])
       ELSE stack' = SetTop([Top EXCEPT !.rs = cfg.cont /\ HasFailed(stepst[el][k]), !.failed = TRUE, !.pc = "steps", !.i = k + 1])
    /\ U(<<inputs, ret, model, rt, ctx, cap, evlog>>)
-SFinish ==      \* special case: a scenario that does not run and has no steps of its own is set to skipped
+SFinish ==      \* special case: a scenario that does not run and has no steps at all (own or background) is set to skipped
    /\ Top.fn = "scenario" /\ Top.pc = "finish"
    /\ stack' = SetTop([Top EXCEPT !.pc = IF Top.hc THEN "ahook" ELSE "pop"])
-   /\ forced' = IF ~Top.sr /\ ~(\E k \in DOMAIN Steps(Top.el) : Steps(Top.el)[k].org = "own")
+   /\ forced' = IF ~Top.sr /\ Len(Steps(Top.el)) = 0
                 THEN [forced EXCEPT ![Top.el] = "skipped"] ELSE forced
    /\ U(<<inputs, ret, stepst, hookFailed, shouldSkip, rt, ctx, cap, evlog>>)
 SAfterHook ==
